@@ -4,7 +4,7 @@ From Coq Require Import List ZArith Bool.
 Import ListNotations.
 From Zn.model Require Import Lexer Parser ErrDisplay.
 From Zn.model Require Import Ast.
-From Zn.proofs Require Import FrontDisplayProofs FrontLexProofs FrontTotalProofs.
+From Zn.proofs Require Import FrontDisplayProofs FrontLexProofs FrontTotalProofs CursorBoundProofs.
 Open Scope Z_scope.
 
 (* Rendering a syntax error never crashes: for EVERY source text, every line table with non-negative starts and every
@@ -55,10 +55,19 @@ Theorem C05_next_token_progress : forall st0,
 Proof. exact next_token_spec. Qed.
 Print Assumptions C05_next_token_progress.
 
-(* C05_single_error_in_range : forall src c k, compile (default_fuel src) src = OErr c k -> 0 <= k <= Z.of_nat (length src)
-   is NOT proved (it needs the position invariant pos + length rest = length src through the C04 / C13 recognisers);
-   the clause is covered by the correspondence run: every run checks 0 <= cursor <= length on all generated inputs and
-   compares the model's cursor with the implementation's. *)
+(* Every syntax error carries a cursor inside the text: 0 <= cursor <= length, for every source and every fuel (the position
+   invariant pos + length rest = length src is carried through indentation and line bookkeeping, the comment scanner, the
+   C04 recognisers, the C13 string machine and all 40 parser productions).  The bound is attained (Examples below). *)
+Theorem C05_single_error_in_range : forall src c k, compile (default_fuel src) src = OErr c k -> 0 <= k <= Z.of_nat (length src).
+Proof. exact CursorBoundProofs.C05_single_error_in_range. Qed.
+Print Assumptions C05_single_error_in_range.
+
+Theorem C05_error_in_range_any_fuel : forall fuel src c k, compile fuel src = OErr c k -> 0 <= k <= Z.of_nat (length src).
+Proof. exact compile_error_in_range. Qed.
+Print Assumptions C05_error_in_range_any_fuel.
+
+Example C05_example_cursor_at_end : compile 200 [8220; 96] = OErr 27 2 /\ compile 200 [65; 10; 32; 66] = OErr 24 3.
+Proof. split; vm_compute; reflexivity. Qed.
 
 (* non-vacuity: the inputs on which the pinned printer panics or quotes two lines / a NUL *)
 Example C05_example_cursor_past_end : display [8220; 96] [mkLine 0 0] 3 = DOk 1 [8220; 96] 2.
